@@ -558,6 +558,9 @@ func (this *LedgerStoreImp) SubmitBlock(block *types.Block, result store.Execute
 	if blockHeight != nextBlockHeight {
 		return fmt.Errorf("block height %d not equal next block height %d", blockHeight, nextBlockHeight)
 	}
+	if block.Header.PrevBlockHash != this.GetCurrentBlockHash() {
+		return fmt.Errorf("block %d does not extend the current block", blockHeight)
+	}
 	peerInfo, err := this.verifyHeader(block.Header, this.vbftPeerInfoblock)
 	if err != nil {
 		return fmt.Errorf("verifyHeader error %s", err)
@@ -588,6 +591,9 @@ func (this *LedgerStoreImp) AddBlock(block *types.Block, stateMerkleRoot common.
 	nextBlockHeight := currBlockHeight + 1
 	if blockHeight != nextBlockHeight {
 		return fmt.Errorf("block height %d not equal next block height %d", blockHeight, nextBlockHeight)
+	}
+	if block.Header.PrevBlockHash != this.GetCurrentBlockHash() {
+		return fmt.Errorf("block %d does not extend the current block", blockHeight)
 	}
 	peerInfo, err := this.verifyHeader(block.Header, this.vbftPeerInfoblock)
 	if err != nil {
